@@ -120,10 +120,14 @@ EvalNode(S, i, t) ==
             IN  IF anyTick
                 THEN [S1 EXCEPT !.st[i] = iv[1], !.pend[i] = t + n.k]
                 ELSE S1
-      [] n.kind = "echo" ->
-            \* every input is echoed k steps later; echoes accumulate (fbq[i] is the node's queue of <<time, value>>)
+      [] n.kind \in {"echo", "techo"} ->
+            \* every input is echoed k steps later; echoes accumulate (fbq[i] is the node's queue of <<time, value>>).
+            \* techo: echoing a negative value throws instead (a captured error, C15); queue and timers go on
             LET due == S.fbq[i] # <<>> /\ S.fbq[i][1][1] = t
-                S1  == IF due THEN (IF allOk THEN Write([S EXCEPT !.fbq[i] = Tail(@)], i, t, S.fbq[i][1][2])
+                S1  == IF due THEN (IF allOk
+                                    THEN (IF n.kind = "techo" /\ S.fbq[i][1][2] < 0
+                                          THEN [S EXCEPT !.fbq[i] = Tail(@), !.errs = Append(S.errs, <<t, i, S.fbq[i][1][2]>>)]
+                                          ELSE Write([S EXCEPT !.fbq[i] = Tail(@)], i, t, S.fbq[i][1][2]))
                                     ELSE [S EXCEPT !.fbq[i] = Tail(@)])
                        ELSE S
             IN  IF anyTick THEN [S1 EXCEPT !.fbq[i] = Append(@, <<t + n.k, iv[1]>>)] ELSE S1
